@@ -543,7 +543,9 @@ class CSemantics:
 
     def check_condition(self, condition):
         condition = self.pointer(condition)
-        if not condition.typ.is_integer:
+        # A scalar is compared with zero in its own type. A conversion to
+        # int would make 0.5 false and would truncate pointers.
+        if not (condition.typ.is_scalar or condition.typ.is_pointer):
             condition = self.coerce(condition, self.get_type(["int"]))
         return condition
 
